@@ -37,6 +37,29 @@ func ruleEScopeThread(p *Program, r *Reporter) {
 	}
 	isScope := func(t types.Type) bool { return types.Identical(t, d.scopeT) }
 	entryNil := 0
+	partOfDispatcher := d.partOfDispatcherFn()
+	// byInterpretation: a recursive evaluation whose scope the local data flow cannot trace (it travels in a field of a
+	// collector object, through a constructor) is decided by interpretation of the code it belongs to
+	byInterpretation := func(fn *ssa.Function, in ssa.Instruction, callee *ssa.Function, key string) bool {
+		if callee != d.evalFn {
+			return false
+		}
+		if fn != d.evalFn && partOfDispatcher(fn) {
+			r.OK(in.Pos(), key, "in a function D-DISPATCH interprets as part of the dispatcher: scope and current value of this evaluation are decided there, path by path")
+			return true
+		}
+		hf := p.helperEvalFacts()
+		if hf.why == "" && hf.covered(in.Pos(), fn) && hf.scopeOK[in.Pos()] {
+			var roots []string
+			for root := range hf.seenBy[in.Pos()] {
+				roots = append(roots, root.Name())
+			}
+			sort.Strings(roots)
+			r.OK(in.Pos(), key, "by interpretation of every helper that reaches this evaluation ("+strings.Join(roots, ", ")+"): on each of their paths the scope handed on here is the helper's own scope parameter")
+			return true
+		}
+		return false
+	}
 	for _, fn := range p.ReachFuncs(p.Eval) {
 		name := p.FuncName(fn)
 		var scopeParam *ssa.Parameter
@@ -66,7 +89,9 @@ func ruleEScopeThread(p *Program, r *Reporter) {
 						if a == scopeParam || (recvIsScope && a == fn.Params[0]) {
 							r.Trivial(in.Pos(), key, "the function's own scope parameter")
 						} else {
-							r.Bad(instrPos(in), key, "passes a scope that is not the function's own scope parameter")
+							if !byInterpretation(fn, in, callee, key) {
+								r.Bad(instrPos(in), key, "passes a scope that is not the function's own scope parameter")
+							}
 						}
 					case *ssa.FreeVar:
 						r.Trivial(in.Pos(), key, "captured scope of the enclosing function")
@@ -75,7 +100,9 @@ func ruleEScopeThread(p *Program, r *Reporter) {
 							entryNil++
 							r.OK(in.Pos(), key, "top-level evaluation starts with the empty (nil) scope")
 						} else {
-							r.Bad(instrPos(in), key, "passes a nil scope: variables bound by enclosing let expressions become undefined here")
+							if !byInterpretation(fn, in, callee, key) {
+								r.Bad(instrPos(in), key, "passes a nil scope: variables bound by enclosing let expressions become undefined here")
+							}
 						}
 					case *ssa.Call:
 						cf := calleeOf(&a.Call)
@@ -86,23 +113,35 @@ func ruleEScopeThread(p *Program, r *Reporter) {
 								r.Bad(instrPos(in), key+" use", "the child scope is handed to something other than the recursive evaluation")
 							}
 						} else {
-							r.Bad(instrPos(in), key, "scope argument computed by "+a.String()+": scopes are created only by the dispatcher's let case")
+							if !byInterpretation(fn, in, callee, key) {
+								r.Bad(instrPos(in), key, "scope argument computed by "+a.String()+": scopes are created only by the dispatcher's let case")
+							}
 						}
 					case *ssa.UnOp:
 						// walking the chain inside a scope method: a field of the receiver that is itself a scope
 						if fa, ok := a.X.(*ssa.FieldAddr); ok && a.Op == token.MUL && recvIsScope && isScope(fa.X.Type()) {
 							r.Trivial(in.Pos(), key, "scope chain walk inside a scope method")
+						} else if prm, owner := capturedParam(fn, a); prm != nil && isScope(prm.Type()) && owner != nil && !(owner.Signature.Recv() != nil && isScope(owner.Signature.Recv().Type()) && prm == owner.Params[0]) {
+							// a closure (a callback handed to a higher-order helper, the body of a range-over-func loop) passing on
+							// the scope parameter of the function it is written in; the variable is never assigned anything else
+							r.Trivial(in.Pos(), key, "the enclosing function's own scope parameter, captured and never reassigned")
 						} else {
-							r.Bad(instrPos(in), key, "scope argument loaded from "+a.X.String())
+							if !byInterpretation(fn, in, callee, key) {
+								r.Bad(instrPos(in), key, "scope argument loaded from "+a.X.String())
+							}
 						}
 					case *ssa.Phi:
 						if recvIsScope {
 							r.Trivial(in.Pos(), key, "scope chain walk inside a scope method")
 						} else {
-							r.Bad(instrPos(in), key, "scope argument merged from several values: "+arg.String())
+							if !byInterpretation(fn, in, callee, key) {
+								r.Bad(instrPos(in), key, "scope argument merged from several values: "+arg.String())
+							}
 						}
 					default:
-						r.Bad(instrPos(in), key, "scope argument is neither the function's parameter nor the let body's child scope: "+arg.String())
+						if !byInterpretation(fn, in, callee, key) {
+							r.Bad(instrPos(in), key, "scope argument is neither the function's parameter nor the let body's child scope: "+arg.String())
+						}
 					}
 				}
 			}
@@ -124,6 +163,9 @@ func ruleEScopeThread(p *Program, r *Reporter) {
 				}
 				if ld, ok := c.Call.Args[d.curIdx].(*ssa.UnOp); ok && ld.Op == token.MUL {
 					if fa, ok := ld.X.(*ssa.FieldAddr); ok && fa.X == ssa.Value(fn.Params[0]) {
+						if tn, _ := derefType(fn.Params[0].Type()).(*types.Named); tn == nil || d.evalFn.Signature.Recv() == nil || !types.Identical(derefType(d.evalFn.Signature.Recv().Type()), tn) {
+							continue // a field of some other object (a collector holding the current value), not of the evaluator
+						}
 						r.Bad(instrPos(c), p.FuncName(fn)+" evaluates against the root", "a child is evaluated with a field of the evaluator (the document root) as its current value: the result no longer depends on where the expression stands")
 					}
 				}
